@@ -110,7 +110,15 @@ pub fn guarded<T>(f: impl FnOnce() -> T) -> Result<T, (String, String)> {
     let r = catch_unwind(AssertUnwindSafe(f));
     IN_CASE.with(|c| *c.borrow_mut() = false);
     match r {
-        Ok(v) => Ok(v),
+        Ok(v) => {
+            if std::env::var("VERIF_TRACE").is_ok() {
+                for r in pumpkin_solver::verif_hooks::drain().0 {
+                    eprintln!("  {:?} {} dl={} pos={} {:?} <- {:?} {:?}", r.kind, r.propagator, r.decision_level, r.position, r.propagated, r.reason, r.reason_positions);
+                }
+                pumpkin_solver::verif_hooks::disable();
+            }
+            Ok(v)
+        }
         Err(_) => {
             // a panic may leave the verification tap enabled with stale data
             if std::env::var("VERIF_TRACE").is_ok() {
@@ -493,6 +501,18 @@ pub fn run_campaign<P: Property>(prop: &P, tier: Tier, seed: u64) -> i32 {
                 let _ = std::thread::Builder::new()
                     .stack_size(64 << 20)
                     .spawn_scoped(scope, move || {
+                        // a panic outside `judge` (generator, feature or bookkeeping code) is a harness
+                        // error: report it as such instead of leaving the watchdog waiting forever
+                        struct WorkerGuard;
+                        impl Drop for WorkerGuard {
+                            fn drop(&mut self) {
+                                if std::thread::panicking() {
+                                    eprintln!("harness: a worker thread panicked outside the property body (exit 2){}", LAST_PANIC.with(|p| p.borrow().clone().map(|m| format!(": {} {}", m.0, m.1)).unwrap_or_default()));
+                                    std::process::exit(2);
+                                }
+                            }
+                        }
+                        let _guard = WorkerGuard;
                         let acc = RefCell::new(Acc::default());
                         let failed = RefCell::new(false);
                         // fixed cases are distributed round-robin
